@@ -79,6 +79,7 @@ class Context(object):
         self.exhaustive = True
         self.rng = random.Random(seed)
         self._max_viol = 25
+        self.notes = {}
         self.abort = False       # set after a non-terminating call or > 100 violations: stop exploring
 
     # -- TLC phases -----------------------------------------------------------------------
@@ -140,6 +141,13 @@ class Context(object):
         else:
             self.violations.append(Violation(key, message, None))
 
+    def note(self, kind, message, case=None):
+        """An implementation-layer divergence: the code does not follow the I-layer transcription on
+        some internal detail (a differently shaped intermediate step, a renamed helper that cannot be
+        wrapped any more) while the property-level judgement is made elsewhere. Recorded in the
+        evidence file, never a violation by itself."""
+        self.notes.setdefault(kind, dict(count=0, first=message[:400]))['count'] += 1
+
     def sample(self, x, limit=6):
         if len(self.samples) < limit:
             self.samples.append(x)
@@ -200,6 +208,7 @@ def write_evidence(ctx, n_viol, n_known):
             checker_cmd='; '.join(ctx.tlc_cmds)[:4000],
             phases=ctx.parts,
             rule=getattr(ctx, 'rule', ''),
+            implementation_layer_divergences=ctx.notes,
         ),
         assumptions=ctx.assumptions,
         wall_s=round(time.time() - ctx.t0, 2),
